@@ -132,9 +132,42 @@ def conclude(ctx, proof_ok, failures, tie_cases):
 
 # ===================================================================================== generators
 
+def fib_data(rng, n=None, M=None, r=None, S=None):
+    """Symbol counts shaped like a Fibonacci chain under a bed of common symbols: the optimal Huffman tree is deeper than
+    the 15 bits DEFLATE allows (the length limiter must act, 15-bit codes occur), plus a contiguous run of S one-off symbols."""
+    vals = list(range(256))
+    for i in range(255, 0, -1):
+        j = rng.below(i + 1)
+        vals[i], vals[j] = vals[j], vals[i]
+    M = M or rng.choice([1, 8, 64])
+    r = r or rng.range(11, 18)
+    S = rng.choice([0, 4, 31, 40]) if S is None else S
+    commons, rare, ones = vals[:M], vals[M:M + r], vals[M + r:M + r + S]
+    body = []
+    a, b = 1, 2
+    for sym in rare:
+        body += [sym] * a
+        a, b = b, a + b
+    each = max(3, (2 * a) // M)
+    for sym in commons:
+        body += [sym] * each
+    for i in range(len(body) - 1, 0, -1):
+        j = rng.below(i + 1)
+        body[i], body[j] = body[j], body[i]
+    at = rng.below(len(body) + 1)
+    out = [commons[0]] * rng.below(16) + body[:at] + ones + body[at:]
+    if n is not None:
+        while len(out) < n:
+            out += out[:n - len(out)]
+        out = out[:n]
+    return bytes(out)
+
+
 def data_classes(rng, n):
     """byte strings of length n of several content classes"""
-    k = rng.below(7)
+    k = rng.below(8)
+    if k == 7:
+        return fib_data(rng, n)
     if k == 0:
         return bytes(n)
     if k == 1:
@@ -389,6 +422,14 @@ def c09_cases(ctx):
                     sched = "%d:%d:%d" % (rng.choice([1, 7, 100000]), rng.choice([1, 3, 100, 100000]), rng.choice([0, 0, 2, 3]))
                     ctx.add("z%d" % n, ["in %s" % hx(data), "cparams 0 %d %d %d" % (level, strat, wb), "cdrive @ %s" % sched],
                             kind="zstream", data=data, wb=wb)
+    # a compress call that stops early (its block does not fit the output space) leaves input unconsumed: the
+    # running Adler-32 must cover the consumed part only, the caller offers the rest again
+    for level in ([0, 1, 6] if ctx.tier == "quick" else [0, 1, 2, 4, 6, 9]):
+        for osz in (100, 4093, 20000):
+            n += 1
+            data = rng.bytes(rng.choice([40000, 100000, 150000]))
+            ctx.add("z%d" % n, ["in %s" % hx(data), "cparams 0 %d 0 15" % level, "cdrive @ 100000000:%d:%d" % (osz, rng.choice([0, 4]))],
+                    kind="zstream", data=data, wb=15)
     # decode side: trailer / body corruption
     for i in range(60 if ctx.tier == "quick" else 400):
         data = data_classes(rng, rng.choice([1, 20, 400, 40000]))
